@@ -67,12 +67,38 @@ def check_target(g, e, s, acc):
                 'performance_needed=%r but the next-worse grid mark %r scores %r >= %d' % (p, w, gotw, s))
 
 
+def spellings(g, e):
+    out = [(g.lower(), e), (g, e.lower()), (g.lower(), e.lower())]
+    return [x for x in dict.fromkeys(out) if x != (g, e)]
+
+
+def _quiet(fn, *a):
+    try:
+        return fn(*a)
+    except Exception as ex:
+        return 'raised %s' % type(ex).__name__
+
+
 def work(chunk):
     acc = Acc()
+    perf = common.bind_repo().athlon_performance_needed
     for (g, e) in chunk:
         for s in range(TARGETS[0], TARGETS[1] + 1):
             acc.n += 1
             check_target(g, e, s, acc)
+            # the mark is on the 0.01 grid; other spellings of the row and a float-typed target give the same mark
+            p = _quiet(perf, g, e, s)
+            if isinstance(p, (int, float)) and abs(p * 100 - round(p * 100)) > 1e-6:
+                acc.bad('needed-mark-not-on-the-grid', dict(gender=g, event=e, target=s), 'performance_needed = %r' % (p,))
+            for (g2, e2) in spellings(g, e):
+                acc.n += 1
+                p2 = _quiet(perf, g2, e2, s)
+                if p2 != p:
+                    acc.bad('spelling-changes-the-answer', dict(gender=g2, event=e2, target=s), '%r for (%r,%r), %r for (%r,%r)' % (p2, g2, e2, p, g, e))
+            acc.n += 1
+            p3 = _quiet(perf, g, e, float(s))
+            if p3 != p:
+                acc.bad('float-target-changes-the-answer', dict(gender=g, event=e, target=float(s)), '%r for %r, %r for %r' % (p3, float(s), p, s))
         acc.samples.append(dict(row=[g, e], target=700, needed=common.bind_repo().athlon_performance_needed(g, e, 700)))
     return acc.pack()
 
